@@ -22,7 +22,8 @@ errh    := c out | bd | ex
 req     := <id> <head> <fw> <pathok> <hexpath> <hexurlrepr> <json> route
 route   := h handler | nf | na <hexallow>
 handler := effs (ret out | rr out | ex)
-hreq    := req <bodyerr> <ext>               bodyerr := - | RequestError | BodySizeError | BodyParsingError
+hreq    := req <bodyerr> <singleton> <ext>   singleton := - | <k>   (the outcome object is the application's module-level object k)
+                         bodyerr := - | RequestError | BodySizeError | BodyParsingError, `+` appended when raised under `except ValueError`
                                              ext := - | <n> (<k> <v>)*   (probing handler)
 ```
 -/
@@ -262,6 +263,7 @@ open Ombott.History in
 def pHReq : P HReq := do
   let r ← pReq
   let be ← tok
+  let sg ← tok
   let ex ← tok
   let ext ← (if ex == "-" then pure none else do
     let n ← (match ex.toNat? with | some n => pure n | none => failure)
@@ -270,7 +272,9 @@ def pHReq : P HReq := do
       let v ← pStr
       pure (k, v)) n
     pure (some kv))
-  pure { req := r, bodyErr := if be == "-" then none else some be, ext := ext }
+  let keeps := be.endsWith "+"
+  let cls := if keeps then (be.dropEnd 1).toString else be
+  pure { req := r, bodyErr := if be == "-" then none else some cls, ctxKeeps := keeps, singleton := sg.toNat?, ext := ext }
 
 def run {α} (p : P α) (toks : List String) : Option α :=
   match p.run toks with
